@@ -10,7 +10,7 @@ from ..fnharness import FnCase, run_cases
 from ..engine import Path
 from ..loops import InvLoop
 from .plainops import build_plain, set_cell, get_cell, T0
-from z3 import StringVal, String
+from z3 import StringVal, String, SubString, StringSort
 
 XB = Const('chunk_b', Bytes); XS = String('chunk_s'); XV = Const('x', Val); ERR = Const('err', Val)
 
@@ -131,11 +131,12 @@ def compression_cases():
     return out
 
 
-def codec_cases():
+def codec_cases(only_csv=False):
     out = []
     enc = Const('encoding', Val)
     for fac, arg, meth in (('encode', SStr(XS), 'encode'), ('decode', SBytes(XB), 'decode')):
         for incremental in (True, False):
+            if only_csv and not (fac == 'encode' and incremental): continue
             def ctor(self, incremental=incremental, fac=fac):
                 names = [c[0] for c in self.ctor_calls]
                 if not incremental:
@@ -146,7 +147,12 @@ def codec_cases():
             def on_next_spec(self, q, incremental=incremental, meth=meth, fac=fac):
                 calls = q.calls
                 n = Length(q.trace); last = q.trace[n - 1]
-                one = And(n == Length(T0) + 1, SubSeq(q.trace, 0, n - 1) == T0, Em.chan(last) == OUT, Ev.is_Item(Em.ev(last)))
+                # csv's stream encoder catches a failing codec call and signals it (one on_error instead of the item); rs.data.encode lets it propagate
+                # the emitted item is what the codec returned for this chunk, unchanged (no character dropped, added or replaced by the wrapper)
+                lr = q.ghost.get('lib_results', [])
+                is_res = (Em.ev(last) == Ev.Item(lr[-1])) if (incremental and len(lr) >= 1) else Ev.is_Item(Em.ev(last))
+                kinds = Or(is_res, Ev.is_Err(Em.ev(last))) if only_csv else is_res
+                one = And(n == Length(T0) + 1, SubSeq(q.trace, 0, n - 1) == T0, Em.chan(last) == OUT, kinds)
                 argt = V.VStr(XS) if fac == 'encode' else V.VBytes(XB)
                 if incremental:
                     ok = len(calls) == 1 and calls[0][0].endswith(')#1.' + meth) and len(calls[0][1]) == 1
@@ -162,10 +168,18 @@ def codec_cases():
                     empty = V.VStr(StringVal('')) if fac == 'encode' else V.VBytes(Empty(Bytes))
                     return [('final_flush_on_the_same_object', BoolVal(ok)),
                             ('final_flush_arguments', And(calls[0][1][0] == empty, calls[0][1][1] == V.VBool(BoolVal(True))) if ok else BoolVal(False)),
-                            ('flush_emitted_before_completion', And(n == Length(T0) + 2, SubSeq(q.trace, 0, n - 2) == T0, Ev.is_Item(Em.ev(q.trace[n - 2])), Em.ev(q.trace[n - 1]) == Ev.Done))]
+                            ('flush_emitted_before_completion', Or(And(n == Length(T0) + 2, SubSeq(q.trace, 0, n - 2) == T0,
+                                                                       (Em.ev(q.trace[n - 2]) == Ev.Item(q.ghost['lib_results'][-1])) if q.ghost.get('lib_results') else Ev.is_Item(Em.ev(q.trace[n - 2])),
+                                                                       Em.ev(q.trace[n - 1]) == Ev.Done),
+                                                                   And(BoolVal(only_csv), n == Length(T0) + 1, SubSeq(q.trace, 0, n - 1) == T0, Ev.is_Err(Em.ev(q.trace[n - 1])))))]
                 return [('completes', And(BoolVal(len(calls) == 0), q.trace == Concat(T0, Unit(em(OUT, Ev.Done)))))]
             for handler, spec, a in (('on_next', on_next_spec, arg), ('on_completed', done_spec, None)):
-                w = StreamWrapper(f'codec.{fac}[incremental={incremental}]', 'rxsci.data.codec', fac, [SVal(enc), incremental], handler, a, ctor, spec)
+                if only_csv:
+                    # the stream encoder of csv.dump_to_file: the same contract as the incremental rs.data.encode (one encoder per
+                    # subscription -- a single byte-order mark --, every line fed unchanged, final flush before completion)
+                    w = StreamWrapper('csv._encode_stream', 'rxsci.container.csv', '_encode_stream', [SVal(enc)], handler, a, ctor, spec)
+                else:
+                    w = StreamWrapper(f'codec.{fac}[incremental={incremental}]', 'rxsci.data.codec', fac, [SVal(enc), incremental], handler, a, ctor, spec)
                 w.propagates = True
                 out.append(w)
     return out
@@ -336,6 +350,121 @@ def json_cases():
     return out
 
 
+# esc_run(t, e, i): length of the run of escape characters e of t that ends at index i.  The spec function is given by the recursion
+# esc_run(t, e, i) = 1 + esc_run(t, e, i - 1) if 0 <= i < len(t) and t[i] == e else 0; the solver sees it as an uninterpreted function plus the
+# instances of that equation the obligations need (a z3 RecFunction made the proof of the loop exit go `unknown`).  Proofs are sound (they hold for
+# every function satisfying the instances); a counter-model may interpret esc_run freely beyond the supplied instances, so a refutation of this
+# contract counts only once the real function disagrees with the natively computed spec on a concrete string (ClosingQuote.replay).
+esc_run = Function('esc_run', StringSort(), StringSort(), IntSort(), IntSort())
+
+
+def esc_run_def(t, e, i):
+    """the defining equation of esc_run at index i, as an explicit instance"""
+    return esc_run(t, e, i) == If(And(i >= 0, i < Length(t), SubString(t, i, 1) == e), 1 + esc_run(t, e, i - 1), 0)
+
+
+class ClosingQuote(FnCase):
+    """csv._ends_with_closing_quote(t, escapechar): the dumper writes a string field as '"' + body + '"' where the escape character and the
+    quote of the body are preceded by the escape character.  So a part ends with the closing quote of its field iff it ends with a quote
+    that is preceded by an EVEN number of escape characters (an odd run escapes the quote itself)."""
+    name = 'csv._ends_with_closing_quote'
+    TS = String('part'); ES = String('escapechar')
+
+    def __init__(self):
+        self.loop_contracts = {('match', lambda fn, node: fn.endswith('._ends_with_closing_quote') and isinstance(node, ast.While)):
+                               InvLoop(self.inv, modifies=('locals',), lemmas=self.lemmas)}
+
+    def roles(self, L):
+        # by role: the counter is incremented, the index is decremented in the loop
+        inc = dec = None
+        for n in ast.walk(L.fr.node if hasattr(L.fr, 'node') else self.fn_node):
+            if isinstance(n, ast.While):
+                for m in ast.walk(n):
+                    if isinstance(m, ast.AugAssign) and isinstance(m.target, ast.Name):
+                        if isinstance(m.op, ast.Add): inc = m.target.id
+                        if isinstance(m.op, ast.Sub): dec = m.target.id
+        if inc is None or dec is None:
+            raise Unsupported('_ends_with_closing_quote: cannot identify the run counter and the index of the scan')
+        return inc, dec
+
+    def vals(self, L, q):
+        inc, dec = self.roles(L)
+        ci, cd = L.scope_lookup(inc), L.scope_lookup(dec)
+        return self.eng.to_int(q, q.cells[ci]), self.eng.to_int(q, q.cells[cd])
+
+    def lemmas(self, L, q, j):
+        count, index = self.vals(L, q)
+        return [esc_run_def(self.TS, self.ES, index)]
+
+    def inv(self, L, q, j):
+        count, index = self.vals(L, q)
+        n = Length(self.TS)
+        return [('counter', And(count >= 0, index == n - 2 - count)),
+                ('run_so_far', esc_run(self.TS, self.ES, n - 2) == count + esc_run(self.TS, self.ES, index))]
+
+    def setup(self, eng, p):
+        self.eng = eng
+        f = eng.world.closure_of('rxsci.container.csv', '_ends_with_closing_quote')
+        self.fn_node = f.node
+        return f, [SStr(self.TS), SStr(self.ES)], {}
+
+    def requires(self):
+        return [Length(self.ES) == 1]
+
+    def on_exception(self, q): return BoolVal(False)
+
+    def ensures(self, q, ret):
+        n = Length(self.TS)
+        spec = And(n > 0, SubString(self.TS, n - 1, 1) == StringVal('"'), esc_run(self.TS, self.ES, n - 2) % 2 == 0)
+        # for loop-free variants: the recursion unfolded over the last positions (so that counter-models are real strings with short runs)
+        unfold = [esc_run_def(self.TS, self.ES, n - 2 - d) for d in range(8)]
+        r = self.eng.truth(q, ret)
+        return [('closing_iff_quote_after_an_even_escape_run', (BoolVal(r) if isinstance(r, bool) else r) == spec, {'defs': unfold})]
+
+    validate_refutations = True
+
+    @staticmethod
+    def spec_py(t, e):
+        if len(t) == 0 or t[-1] != '"': return False
+        run = 0; i = len(t) - 2
+        while i >= 0 and t[i] == e:
+            run += 1; i -= 1
+        return run % 2 == 0
+
+    def replay(self, model):
+        """native replay: the real function on the model's strings; when the model's own strings do not show a difference (esc_run is
+        uninterpreted beyond the supplied instances) all strings over {escape, quote, 'a'} up to length 7 are tried -- the verdict
+        'reproduced' always carries a concrete string on which the real function and the natively computed spec disagree"""
+        import importlib, itertools
+        f = importlib.import_module('rxsci.container.csv')._ends_with_closing_quote
+        def show(t, e):
+            try: got = f(t, e)
+            except Exception as ex: got = f'{type(ex).__name__}: {ex}'
+            exp = self.spec_py(t, e)
+            if got is not exp and got != exp or (not isinstance(got, bool) and bool(got) != exp):
+                return {'status': 'reproduced', 'call': f'_ends_with_closing_quote({t!r}, {e!r})', 'expected': exp, 'got': got}
+            return None
+        cands = []
+        try:
+            t = model.eval(self.TS, model_completion=True).as_string(); e = model.eval(self.ES, model_completion=True).as_string()
+            if len(e) == 1: cands.append((t, e))
+        except Exception:
+            pass
+        for e in ('\\', '^'):
+            for n in range(0, 8):
+                for tup in itertools.product((e, '"', 'a'), repeat=n):
+                    cands.append((''.join(tup), e))
+        for t, e in cands:
+            r = show(t, e)
+            if r: return r
+        return {'status': 'not-reproduced', 'tried': len(cands)}
+
+    def e2e(self):
+        from ..bounded import io as bio
+        from ..bounded.mux import first_new_failure
+        return first_new_failure(bio.check_c18({}))
+
+
 def csv_cases():
     out = []
     C = 'rxsci.container.csv'
@@ -375,6 +504,8 @@ def csv_cases():
             return [('returns_a_parser', BoolVal(isinstance(ret, Closure)))]
     for rep, want in (('int', 'parse_int'), ('tint', 'parse_int'), ('float', 'parse_decimal'), ('tfloat', 'parse_decimal'), ('bool', 'lambda'), ('str', 'lambda'), ('tstr', 'lambda')):
         out.append(TypeParser(rep, want))
+    out.append(ClosingQuote())
+    out += codec_cases(only_csv=True)
     fname = SVal(Const('filename', Val)); opn = UserFn('open_obj'); pl = Host('pipe', fns=[])
     def load_term(self, q, chain):
         ns = names(chain)
